@@ -4,6 +4,7 @@ CONSTANTS
   LayoutIds = {2}
   Eols = {"lf"}
   Priors = {"none"}
+  Extras = TRUE
   Rules = {1, 2, 3, 4, 5, 6, 7, 8, 9, 10, 11}
   Scopes = {"rule", "file"}
   OnlyBasePairs = FALSE
